@@ -339,6 +339,8 @@ def apply_spec(sp, op):
                 ps["models"].append(kept.pop(op["which"] % len(kept)))
         elif k == "p.atomic_data":
             ps["provider"] = op["prov"] % len(sp["providers"])
+        elif k == "p.unset":
+            ps["provider" if op["what"] == "atomic_data" else "geometry"] = None
         elif k == "p.transform":
             ps["transform"] = op["t"]
         elif k == "p.parent":
@@ -357,8 +359,10 @@ def apply_spec(sp, op):
             ls["profile"] = copy.deepcopy(op["profile"])
         elif k == "l.spectrum":
             ls["spectrum"] = copy.deepcopy(op["spectrum"])
+        elif k == "l.unset":
+            ls["spectrum"] = None
         elif k == "l.spectrum.set":
-            if op["attr"] in ls["spectrum"]["spec"]:
+            if ls["spectrum"] and op["attr"] in ls["spectrum"]["spec"]:
                 ls["spectrum"]["spec"][op["attr"]] = op["value"]
         elif k == "l.plasma":
             ls["plasma"] = op["to"] % len(sp["plasmas"])
@@ -572,13 +576,19 @@ def build_plasma(s, spec, i):
     p.b_field = Vector3D(*ps["bfield"])
     p.electron_distribution = mk_dist(ps["electron"])
     p.composition = [mk_species(x) for x in ps["composition"]]
-    p.geometry = mk_geometry(ps["geometry"])
+    if ps["geometry"] is not None:
+        p.geometry = mk_geometry(ps["geometry"])
     if ps["geometry_transform"] is not None:
         p.geometry_transform = mk_transform(ps["geometry_transform"])
     p.integrator = mk_integrator(ps["integrator_step"])
-    p.atomic_data = s.providers[ps["provider"]]
+    if ps["provider"] is not None:
+        p.atomic_data = s.providers[ps["provider"]]
     if ps["models"]:
-        p.models = [mk_plasma_model(m) for m in ps["models"]]
+        try:
+            p.models = [mk_plasma_model(m) for m in ps["models"]]
+        except ValueError:
+            if ps["geometry"] is not None and ps["provider"] is not None:
+                raise          # only a plasma without geometry / atomic data may refuse its models
     return p
 
 
@@ -603,11 +613,16 @@ def build_laser(s, spec):
               transform=mk_transform(ls["transform"]), name="laser")
     l.integrator = mk_integrator(ls["integrator_step"])
     l.plasma = s.plasmas[ls["plasma"]]
-    l.laser_spectrum = laser_construct(ls["spectrum"]["kind"], ls["spectrum"]["spec"])
+    if ls["spectrum"] is not None:
+        l.laser_spectrum = laser_construct(ls["spectrum"]["kind"], ls["spectrum"]["spec"])
     l.laser_profile = laser_construct(ls["profile"]["kind"], ls["profile"]["spec"])
     l.importance = ls["importance"]
     if ls["models"]:
-        l.models = [SeldenMatobaThomsonSpectrum() for _ in range(ls["models"])]
+        try:
+            l.models = [SeldenMatobaThomsonSpectrum() for _ in range(ls["models"])]
+        except ValueError:
+            if ls["spectrum"] is not None:
+                raise
     return l
 
 
@@ -688,6 +703,21 @@ class SceneMachine(Machine):
                 if m:
                     apply_spec(gspec, m)
                 ops.append(m)
+                if m and m["op"] in ("p.unset", "l.unset") and rng.random() < 0.8:
+                    # something happens while the prerequisite is missing, then it comes back
+                    ops.append(self._gen_observe(rng, spec))
+                    if m["op"] == "p.unset":
+                        mid = self._gen_mutator(rng, gspec, rng.choice(["p.models.add", "p.models.set", "p.integrator", "p.bfield"]), nprov)
+                        mid["i"] = m["i"]
+                        back = self._gen_mutator(rng, gspec, "p.atomic_data" if m["what"] == "atomic_data" else "p.geometry", nprov)
+                        back["i"] = m["i"]
+                    else:
+                        mid = self._gen_mutator(rng, gspec, rng.choice(["l.models", "l.importance", "l.profile.set"]), nprov)
+                        back = self._gen_mutator(rng, gspec, "l.spectrum", nprov)
+                    for x in (mid, back):
+                        if x:
+                            apply_spec(gspec, x)
+                            ops.append(x)
             elif u < 0.80:
                 ops.append(self._gen_observe(rng, spec))
             elif u < 0.86:
@@ -714,7 +744,7 @@ class SceneMachine(Machine):
 
     def _kinds(self, spec):
         k = ["p.bfield", "p.electron", "p.comp.add", "p.comp.set", "p.comp.set.bad", "p.comp.clear", "p.geometry", "p.geomtransform", "p.integrator",
-             "p.models.set", "p.models.add", "p.models.clear", "p.models.readd", "p.models.set.bad", "p.reassign", "p.caller.mutate",
+             "p.models.set", "p.models.add", "p.models.clear", "p.models.readd", "p.models.set.bad", "p.reassign", "p.caller.mutate", "p.unset",
              "p.atomic_data", "p.transform", "p.parent",
              "frame.transform", "p.recreate"]
         if spec["beams"]:
@@ -723,7 +753,7 @@ class SceneMachine(Machine):
                   "b.recreate", "b.reject"]
         if spec.get("laser"):
             k += ["l.profile.set", "l.profile.set", "l.profile.polarize", "l.profile", "l.spectrum", "l.spectrum.set", "l.plasma",
-                  "l.importance", "l.integrator", "l.models", "l.transform", "l.parent", "l.recreate", "l.reassign"]
+                  "l.importance", "l.integrator", "l.models", "l.transform", "l.parent", "l.recreate", "l.reassign", "l.unset"]
         return k
 
     def _gen_mutator(self, rng, spec, kind, nprov):
@@ -779,6 +809,8 @@ class SceneMachine(Machine):
             op["what"] = rng.choice(["atomic_data", "geometry", "integrator", "electron_distribution", "b_field", "geometry_transform", "species"])
         elif kind == "p.caller.mutate":
             op["what"] = rng.choice(["models", "species"])
+        elif kind == "p.unset":
+            op["what"] = rng.choice(["atomic_data", "geometry"])
         elif kind in ("p.atomic_data",):
             op["prov"] = rng.randrange(nprov)
         elif kind in ("p.transform",):
@@ -1104,6 +1136,23 @@ class SceneMachine(Machine):
                 return "ok"
             i = op["i"] % len(s.plasmas)
             p, ps = s.plasmas[i], sp["plasmas"][i]
+            incomplete = ps["geometry"] is None or ps["provider"] is None or k == "p.unset"
+            if incomplete and k in ("p.models.set", "p.models.add", "p.models.readd", "p.integrator", "p.geometry", "p.geomtransform",
+                                    "p.atomic_data", "p.unset", "p.caller.mutate", "p.reassign", "p.recreate"):
+                try:
+                    return self._mutate_plasma(c, op, env, s, sp, i, p, ps, k)
+                except ValueError:
+                    # documented refusal: "the plasma must have a defined geometry / an atomic data source to be used with an
+                    # emission model" -- raised after the new value was stored; the configuration is the one requested
+                    env.probe("configure_refused_prerequisite_missing")
+                    return "ok" if k not in ("p.caller.mutate", "p.reassign") else "raised"
+            return self._mutate_plasma(c, op, env, s, sp, i, p, ps, k)
+        if k.startswith("l."):
+            return self._mutate_laser(c, op, env)
+        return self._mutate_beam(c, op, env)
+
+    def _mutate_plasma(self, c, op, env, s, sp, i, p, ps, k):
+        if True:
             if k == "p.bfield":
                 p.b_field = Vector3D(*op["v"])
             elif k == "p.electron":
@@ -1218,6 +1267,12 @@ class SceneMachine(Machine):
                 p.models.clear()
             elif k == "p.atomic_data":
                 p.atomic_data = s.providers[op["prov"] % len(s.providers)]
+            elif k == "p.unset":
+                env.probe("prerequisite_unset")
+                if op["what"] == "atomic_data":
+                    p.atomic_data = None
+                else:
+                    p.geometry = None
             elif k == "p.transform":
                 p.transform = mk_transform(op["t"])
             elif k == "p.parent":
@@ -1243,8 +1298,10 @@ class SceneMachine(Machine):
             else:
                 return "noop"
             return "ok"
-        if k.startswith("l."):
-            return self._mutate_laser(c, op, env)
+
+    def _mutate_beam(self, c, op, env):
+        k = op["op"]
+        s, sp = c.scene, c.spec
         if not s.beams:
             return "noop"
         i = op["i"] % len(s.beams)
@@ -1366,8 +1423,11 @@ class SceneMachine(Machine):
         elif k == "l.spectrum":
             self._dispose(c, op, l.laser_spectrum)
             l.laser_spectrum = laser_construct(op["spectrum"]["kind"], op["spectrum"]["spec"])
+        elif k == "l.unset":
+            l.laser_spectrum = None
+            env.probe("prerequisite_unset")
         elif k == "l.spectrum.set":
-            if op["attr"] not in ls["spectrum"]["spec"]:
+            if ls["spectrum"] is None or op["attr"] not in ls["spectrum"]["spec"]:
                 return "noop"
             try:
                 setattr(l.laser_spectrum, op["attr"], op["value"])
@@ -1390,7 +1450,12 @@ class SceneMachine(Machine):
         elif k == "l.models":
             if op.get("keep"):
                 c.kept.append(list(l.models))
-            l.models = [SeldenMatobaThomsonSpectrum() for _ in range(op["n"])]
+            try:
+                l.models = [SeldenMatobaThomsonSpectrum() for _ in range(op["n"])]
+            except ValueError:
+                if ls["spectrum"] is None:
+                    return "raised"      # documented refusal (checked before anything is stored): specification unchanged
+                raise
         elif k == "l.transform":
             l.transform = mk_transform(op["t"])
         elif k == "l.parent":
@@ -1412,6 +1477,8 @@ class SceneMachine(Machine):
             if what == "profile":
                 l.laser_profile = l.laser_profile
             elif what == "spectrum":
+                if ls["spectrum"] is None:
+                    return "noop"
                 l.laser_spectrum = l.laser_spectrum
             else:
                 l.plasma = l.plasma
